@@ -44,7 +44,8 @@ ModelStep(e) ==
   CASE e.op = "into_array" -> IntoArray(e.api, e.m)
     [] e.op = "from_array" -> FromArray(e.api, e.m)
     [] e.op = "into_component" -> IntoComponent(e.api, e.m)
-    [] e.op = "try_from_component" -> TryFromComponent(e.api, e.m)
+    \* the reported reason is the logged one when it is one of the two (the model decides whether it is a true one)
+    [] e.op = "try_from_component" -> TryFromComponentK(e.api, e.m, IF e.err = CAPACITY THEN CAPACITY ELSE LENGTH)
     [] e.op = "from_component" -> FromComponent(e.api, e.m)
     [] e.op = "into_uint" -> IntoUint(e.api, e.m)
     [] e.op = "from_uint" -> FromUint(e.api, e.m)
